@@ -20,7 +20,7 @@ import (
 
 type C15Item struct {
 	ID      string `json:"id"`
-	Route   string `json:"route"`  // name of a route of the fixed config (see c15Text)
+	Route   string `json:"route"` // name of a route of the fixed config (see c15Text)
 	Invalid string `json:"invalid,omitempty"`
 	PayLen  int    `json:"pay_len,omitempty"`
 	Hdr     int    `json:"hdr,omitempty"`
@@ -28,15 +28,15 @@ type C15Item struct {
 }
 
 type C15Case struct {
-	Backend   string    `json:"backend"`
-	Depth     int       `json:"depth"`
-	Drop      string    `json:"drop"`
-	MaxBody   int       `json:"max_body"`
-	Policy    string    `json:"policy,omitempty"` // "", require_actor, require_request_id, direct_off, no_pull, no_deliver
-	Scoped    bool      `json:"scoped,omitempty"`
-	Audit     string    `json:"audit,omitempty"` // "", no-reason, no-actor, no-request-id
-	Prefill   []string  `json:"prefill,omitempty"` // ids already queued (route /p)
-	Items     []C15Item `json:"items"`
+	Backend string    `json:"backend"`
+	Depth   int       `json:"depth"`
+	Drop    string    `json:"drop"`
+	MaxBody int       `json:"max_body"`
+	Policy  string    `json:"policy,omitempty"` // "", require_actor, require_request_id, direct_off, no_pull, no_deliver
+	Scoped  bool      `json:"scoped,omitempty"`
+	Audit   string    `json:"audit,omitempty"`   // "", no-reason, no-actor, no-request-id
+	Prefill []string  `json:"prefill,omitempty"` // ids already queued (route /p)
+	Items   []C15Item `json:"items"`
 }
 
 func c15Text(c C15Case) string {
